@@ -52,6 +52,9 @@ RULE = (
     "ns) run before the enumeration, which may use at most 60% of the time cap."
     " Mode v3-fresh-two-step: first use of a client against an agent with two-step discovery."
     " The long walk that goes by a parked request has 170 requests."
+    ' Operations that END IN AN ERROR take part: strict and lenient walks over a stretch wher'
+    'e the device stops advancing, refused SETs; each ends as it ends alone and the exception'
+    ' objects of one execution are pairwise distinct.'
 )
 ASSUMPTIONS = [
     "operations in one set commute (sets go to private OIDs nobody else reads)",
